@@ -23,7 +23,8 @@ ID = "C06"
 THEOREMS = ["C06_decode_encode", "C06_encode_distinct", "C06_encode_injective", "C06_encode_swap",
             "C06_encode_swap_token", "C06_tokens_byte", "C06_batch_rows", "C06_batch_rows_inv",
             "C06_batch_raises", "C06_batch_defined", "C06_mask_selects_encoding", "C06_pad_is_empty_token",
-            "C06_mask_essential", "C06_vocabulary_tie"]
+            "C06_mask_essential", "C06_vocabulary_tie", "C06_reachable_encodable",
+            "C06_reachable_encodable_standard"]
 MODEL_TARGETS = ["model/Tak.vo", "model/Harness.vo", "model/Lit.vo", "model/Encoding.vo"]
 TRUSTED_BASE = [
     "CPython list indexing incl. negative indices (py_index), torch.tensor/zeros/slice assignment as list operations, "
@@ -32,8 +33,8 @@ TRUSTED_BASE = [
 ]
 ASSUMPTIONS = [
     "domain of the lossless/injective clauses: encodable = size 3..6, size^2 squares, reserves 0..49, capstones 0..1, "
-    "only the top piece of a stack standing/capstone; 'reachable positions are encodable' is C04's invariant and is "
-    "exercised here by playouts only",
+    "only the top piece of a stack standing/capstone; reachable positions of sizes 3..6 are in it by "
+    "C06_reachable_encodable (from C04's invariant, proofs/Invariant.v)",
     "decode() raising AssertionError/IndexError/KeyError/AttributeError is one outcome (None) in the model",
 ]
 
@@ -399,7 +400,7 @@ def position_case(tak, torch, enc, p, ss):
 def _volumes(run):
     if run.quick:
         return dict(playout=3000, constructed=1500, ood=500, malformed=1200, batches=200)
-    return dict(playout=30000, constructed=12000, ood=3000, malformed=8000, batches=2000)
+    return dict(playout=20000, constructed=10000, ood=3000, malformed=8000, batches=2000)
 
 
 def _pos_cases():
